@@ -290,6 +290,25 @@ def run_case(ctx, case):
                         label, q, a, b, ('%.4g x ' % lam) if q == 'pmf' and lam != 1 else '', q, parent[a], parent[b], err, y1, y2))
                     return
     ctx.hook('relation.results_compared')
+    if kind == 'rescale' and case['seed'] % 3 == 0:
+        # the same change of energy units made IN PLACE on the solved object (PRISM.sys.kT and every epsilon / overlap value multiplied by
+        # one factor) followed by a second solve from the solution: whether or not the object honours in-place edits, the structure it
+        # reports is that of the same fluid
+        ctx.hook('relation.rescaled_in_place_on_solved_object')
+        lam2 = 3.0
+        p1.sys.kT = p1.sys.kT * lam2
+        for (i, j), (a, b), U in p1.sys.potential.iterpairs():
+            for attr in ('epsilon', 'high_value'):
+                if hasattr(U, attr):
+                    setattr(U, attr, getattr(U, attr) * lam2)
+        r4 = solve_tight(p1, guess=np.array(r1.x))
+        if r4 is not None:
+            g4 = results(p1, sp['types'])['g']
+            err = max(float(np.abs(g4[a, b] - res1['g'][a, b]).max()) for a in sp['types'] for b in sp['types'])
+            ctx.observe('rescaled_in_place_g/tol', err / tolr)
+            if not err <= tolr:
+                ctx.violation('invariance:rescale:solved-object-rescaled-in-place-changes-structure', '%s: after PRISM.sys.kT and every energy parameter of PRISM.sys were multiplied by %g in place and the object was solved again from its solution, g(r) changed by %.3g' % (label, lam2, err))
+                return
     # ---- independent zero-guess solve: DIAGNOSTIC ONLY.  The self-consistent equations have several roots (also
     # physical-looking ones with g >= 0, mostly with HNC), so two independently found roots may legitimately differ;
     # the verdict rests on the mapped root (a) and the solve started from it (b).
